@@ -141,20 +141,33 @@ def _build(cfg):
             return jnp.stack([r, 0.1 - 1.1 * r])
         return r[None] if vec else r
 
+    # het: the landscape enters through a HETEROGENEOUS equation parameter `a` (its user function of the point gives the landscape, its
+    # raw value is a constant): the residual the refinement must rank is the one of `dynamic_loss.evaluate`, maps applied
+    het = bool(cfg.get("het")) and not cfg.get("sys")
+    hetmap = None
     if kind == "ode":
         class Eq(ODE):
             def equation(self, t, u, params):
-                return shape(rfun(jnp.squeeze(t)) + 0.0 * jnp.sum(u(t, params)))
+                return shape((params.eq_params["a"] if het else rfun(jnp.squeeze(t))) + 0.0 * jnp.sum(u(t, params)))
+        if het:
+            hetmap = {"a": lambda t, u, p: rfun(jnp.squeeze(t))}
     elif kind == "statio":
         class Eq(PDEStatio):
             def equation(self, x, u, params):
-                return shape(rfun(x) + 0.0 * jnp.sum(u(x, params)))
+                return shape((params.eq_params["a"] if het else rfun(x)) + 0.0 * jnp.sum(u(x, params)))
+        if het:
+            hetmap = {"a": lambda x, u, p: rfun(x)}
     else:
         class Eq(PDENonStatio):
             def equation(self, t, x, u, params):
-                return shape(rfun(jnp.squeeze(t), x) + 0.0 * jnp.sum(u(t, x, params)))
+                return shape((params.eq_params["a"] if het else rfun(jnp.squeeze(t), x)) + 0.0 * jnp.sum(u(t, x, params)))
+        if het:
+            hetmap = {"a": lambda t, x, u, p: rfun(jnp.squeeze(t), x)}
+    if het:
+        _Eq0 = Eq
+        Eq = lambda Tmax: _Eq0(Tmax=Tmax, eq_params_heterogeneity=hetmap)
 
-    params = jinns.parameters.Params(nn_params=u.init_params(), eq_params={})
+    params = jinns.parameters.Params(nn_params=u.init_params(), eq_params={"a": jnp.array(0.5)} if het else {})
     import warnings
     if cfg.get("sys"):
         # a system of two equations sharing one unknown: residuals f and 0.1 - 1.1 f (opposite signs); the squared residual of
